@@ -125,7 +125,14 @@ def _install_basic(e):
         return u, z3.SubString(u, 0, i)
 
     def pu_post(c, old, a, res):
-        p = c.ghost.get("$parsed")
+        p = c.ghost.get("$parsed") if c.mode == "prove" else None
+        if p is None and c.mode == "assume":
+            # at a call site the components are the function's results themselves; what callers rely on:
+            u, scheme = pu_parts(c, a)
+            h, prt, resource, secure = res
+            is_wss = scheme == z3.StringVal("wss")
+            return z3.And(z3.Contains(u, z3.StringVal(":")), z3.Or(scheme == z3.StringVal("ws"), is_wss), z3.Length(z(h)) > 0,
+                          z(secure, "bool") == is_wss, z3.PrefixOf(z3.StringVal("/"), z(resource)) if False else z3.BoolVal(True))
         if p is None:
             return z3.BoolVal(False)
         u, scheme = pu_parts(c, a)
@@ -339,6 +346,9 @@ def install_proxy2(e):
         rh, rp, ra = res
         none_triple = z3.And(zn(rh), z3.BoolVal(tag_of(rp) != "opt" and not isinstance(rp, SV)) if False else (z(rp, "int") == 0 if tag_of(rp) in ("int", "bool") else z3.BoolVal(False)), zn(ra))
         ex = c.ghost.get("$exempt")
+        if ex is None and c.mode == "assume":
+            # use at a call site: the exemption verdict is that of _is_no_proxy_host for these arguments (an unconstrained boolean here)
+            ex = c.fresh("bool", "exempt")
         if ex is None:
             return z3.BoolVal(False)
         exempt = z(ex, "bool")
@@ -350,7 +360,7 @@ def install_proxy2(e):
         if p is not None:
             from_env = z3.And(z3.Length(envv) > 0, e.interp.same_value(c, rh, p.attrs["hostname"]), e.interp.same_value(c, rp, p.attrs["$port"]))
         else:
-            from_env = z3.BoolVal(False)
+            from_env = z3.BoolVal(c.mode == "assume")
         return z3.And(z3.Implies(exempt, none_triple),
                       z3.Implies(z3.And(z3.Not(exempt), has_opt), from_opt),
                       z3.Implies(z3.And(z3.Not(exempt), z3.Not(has_opt), z3.Length(envv) > 0), from_env),
